@@ -136,6 +136,20 @@ def gen_cases(tier, seed):
     for count in (None, 1, 3):
         steps.append(iteration("SCAN", None, count, None, None, 30, False))
     cases.append(("scan-expired", "mem", steps))
+    # a key BEFORE the cursor expires between two calls of one iteration: SCAN's cursor is a position in the ordered index, an
+    # expired record keeps its position until it is collected, so every key that lives through the iteration is still returned
+    # (the loop is written out call by call - the positions are known - with a pause after the first call)
+    for count in (2, 3, 4):
+        steps = [op(0, "SET", "m%d" % i, "v") for i in range(10)] + [op(0, "SET", "m1", "v", "PX", "8"), op(0, "SET", "m0", "v", "PX", "8")]
+        steps += [x("ITBEGIN"), op(0, "SCAN", "0", "COUNT", str(count)), x("SLEEP", "25")]
+        calls = 1
+        pos = count + 1           # the cursor is the (1-based) number of the first key of the next call
+        while pos <= 10:
+            steps.append(op(0, "SCAN", str(pos), "COUNT", str(count)))
+            calls += 1
+            pos += count
+        steps.append(x("ITEND", "done:%d" % calls))
+        cases.append(("scan-expiring-before-cursor-%d" % count, "mem", steps))
     return cases
 
 
@@ -257,7 +271,7 @@ def judge_case(c):
             i = j + 1
             continue
         fam = calls[0][1]["name"]
-        churned = len(calls) < len(body)
+        churned = any(b["name"] not in FAMS and b["x"] is None for b in body)   # commands between the calls (a pause is not churn)
         sfx = "-under-churn" if churned else ""
         a = calls[0][1]["args"]
         key = a[0] if fam != "SCAN" else None
